@@ -1,8 +1,10 @@
 # C08 - NetFlow v5 flows are decoded field-for-field.
+import base64
 import copy
 import json
 
 import flowjobs
+import jsoncheck
 import vlib
 
 LEVEL = "model_checking"
@@ -57,7 +59,19 @@ def check(ctx):
                 jobs.append({"msgs": [{"exp": exps[0], "buf": c["buf"][:k]}]})
     rng = ctx.rng
     for _ in range(20000 if thorough else 2500):
-        jobs.append({"msgs": [{"exp": exps[rng.randrange(3)], "buf": rand_dgram(rng)}]})
+        jobs.append({"msgs": [{"exp": exps[rng.randrange(3)], "buf": rand_dgram(rng)}], "want_json": True})
+    # address boundary values in chosen positions: each of SrcAddr / DstAddr / NextHop all-zero, all-ones or 127.0.0.1 in the
+    # first record, in a later record, in all records
+    for cnt in (1, 2, 3, 30):
+        for field in range(3):
+            for val in ([0, 0, 0, 0], [255, 255, 255, 255], [127, 0, 0, 1]):
+                for where in ("first", "last", "all", "second-after-other"):
+                    recs = [[rng.randrange(1, 255) for _ in range(48)] for _ in range(cnt)]
+                    idx = {"first": [0], "last": [cnt - 1], "all": list(range(cnt)), "second-after-other": [1] if cnt > 1 else []}[where]
+                    for i in idx:
+                        recs[i][4 * field:4 * field + 4] = val
+                    buf = [0, 5, 0, cnt] + [rng.randrange(256) for _ in range(20)] + [o for r in recs for o in r]
+                    jobs.append({"msgs": [{"exp": exps[0], "buf": buf}], "want_json": True})
     res = flowjobs.run_jobs(ctx, drv, "TestVerifNF5Jobs", jobs, tag="v5")
     rows = []
     for job, x in zip(jobs, res):
@@ -74,6 +88,15 @@ def check(ctx):
             ctx.violation("NetFlow v5 decoder panicked: %s" % y["panic"], {"buf": buf})
             continue
         rows.append({"buf": buf, "res": {"st": y["st"], "hdr": y["hdr"], "flows": y["flows"]}})
+        if job.get("want_json") and y["st"] == "ok" and y["flows"]:
+            # "with addresses rendered in dotted form in the JSON" (the document's other fields are C05's business, checked alike)
+            raw = base64.b64decode(y["json"]) if y.get("json") else b""
+            try:
+                jsoncheck.check_v5_doc(jsoncheck.parse(raw), job["msgs"][0]["exp"], y)
+                ctx.extra["json_documents_checked"] = ctx.extra.get("json_documents_checked", 0) + 1
+            except jsoncheck.Bad as e:
+                ctx.violation("NetFlow v5: the JSON of a decoded message is wrong: %s" % e, {"buf": buf, "json": raw.decode("utf-8", "replace")[:1500]},
+                              key="v5:json:" + str(e).split(":")[0][:40])
     ok, bad = flowjobs.validate_trace(ctx, "NetFlow5Trace", "NetFlow5Trace.cfg", rows, chunk=800, stateless=True)
     if not ok:
         rr = rows[bad]
@@ -95,3 +118,6 @@ def check(ctx):
     if ok2 or ok3:
         raise vlib.Infra("binding self-test failed: corrupted v5 trace accepted")
     ctx.binding_selftests += [{"corrupt": "flow field octet flipped", "rejected": True}, {"corrupt": "two flow fields swapped", "rejected": True}]
+    # the real workers in parallel under the race detector: what each publishes is its own datagram's message
+    from props import c12
+    c12.parallel_stage(ctx, thorough, protos=["netflow5"])
